@@ -118,14 +118,14 @@ def _is_num(v):
     return isinstance(v, (int, float)) and not isinstance(v, bool)
 
 
-def ref_equal(a, b):
+def ref_equal(a, b, exact=False, delta=DELTA):
     if _is_num(a) and _is_num(b):
         d = abs(a - b)
         if isinstance(a, int) and isinstance(b, int):
             return a == b
-        if d < 0.9 * DELTA:
+        if d < 0.9 * delta:
             return True
-        if d > 1.1 * DELTA:
+        if d > 1.1 * delta:
             return False
         return None
     if isinstance(a, bool) or isinstance(b, bool):
@@ -133,6 +133,8 @@ def ref_equal(a, b):
             return a == b
         return None
     if isinstance(a, str) and isinstance(b, str):
+        if exact:
+            return a == b
         if _norm(a) == _norm(b):
             return True
         if sorted(c for c in a.lower() if c.isalnum()) != sorted(c for c in b.lower() if c.isalnum()):
@@ -146,14 +148,14 @@ def ref_equal(a, b):
         if isinstance(a, kind) and isinstance(b, kind):
             if len(a) != len(b):
                 return False
-            rs = [ref_equal(x, y) for x, y in zip(a, b)]
+            rs = [ref_equal(x, y, exact, delta) for x, y in zip(a, b)]
             if any(r is False for r in rs):
                 return False
             return True if all(r is True for r in rs) else None
     if isinstance(a, dict) and isinstance(b, dict):
         if set(a) != set(b):
             return None if any(isinstance(k, (str, float)) for k in list(a) + list(b)) else False
-        rs = [ref_equal(a[k], b[k]) for k in a]
+        rs = [ref_equal(a[k], b[k], exact, delta) for k in a]
         if any(r is False for r in rs):
             return False
         return True if all(r is True for r in rs) else None
@@ -168,7 +170,7 @@ def ref_equal(a, b):
         import itertools
         best = False
         for perm in itertools.permutations(lb):
-            rs = [ref_equal(x, y) for x, y in zip(la, perm)]
+            rs = [ref_equal(x, y, exact, delta) for x, y in zip(la, perm)]
             if all(r is True for r in rs):
                 return True
             if all(r is not False for r in rs):
@@ -299,6 +301,44 @@ def make_binary(values):
                 ctx.fail({'symptom': 'assertion and its negation both ' + ('pass' if got else 'fail'),
                           'assertion': name}, case=case)
     return body
+
+
+OPT_VALUES = [1, 1.0005, 1.05, 1.2, 'a', 'A', 'a!', 'Hello, World', 'hello world', ['a', 1.05], ['A', 1], {'Apple'}, {'apple'},
+              {'k': 'A'}, {'k': 'a'}, ('a!', 1.0005), ('a', 1), [{'Apple'}], [{'apple'}], {1.05}, {1}]
+OPTIONS = [dict(exact_strings=True), dict(delta=0.1), dict(delta=1e-9), dict(exact_strings=True, delta=0.1), dict()]
+
+
+def body_options(ctx):
+    """assert_equal / assert_not_equal with exact_strings and delta options, at every nesting level"""
+    name = ('assert_equal', 'assert_not_equal')[ctx.choose(2, 'assertion')]
+    li = ctx.choose(len(OPT_VALUES), 'left')
+    ri = ctx.choose(len(OPT_VALUES), 'right')
+    opt = OPTIONS[ctx.choose(len(OPTIONS), 'options')]
+    wl, wr = WRAPS[ctx.choose(4, 'wrapping')]
+    _trim()
+    lv, rv = OPT_VALUES[li], OPT_VALUES[ri]
+    key_l, key_r = ('opt', li), ('opt', ri)
+    for key, v, w in ((key_l, lv, wl), (key_r, rv, wr)):
+        if w and key not in TYPE_P:
+            TYPE_P[key] = sb_cmds.call('identity', v)
+    lo = TYPE_P[key_l] if wl else lv
+    ro = TYPE_P[key_r] if wr else rv
+    case = {'assertion': name, 'left': repr(lv), 'right': repr(rv), 'options': opt, 'left_proxied': wl, 'right_proxied': wr}
+    canon = repr((name, li, ri, sorted(opt.items()), wl, wr))
+    ctx.observe(canon)
+    ctx.set_sample(case)
+    ctx.mark_nontrivial(canon)
+    ref = ref_equal(lv, rv, opt.get('exact_strings', False), opt.get('delta', DELTA))
+    ctx.step(name)
+    fb, exc = _call(name, lo, ro, **opt)
+    if ref is None:
+        ctx.abstain()
+        fb2, exc2 = _call(name, ro, lo, **opt)
+        if exc is None and exc2 is None and silent(fb) != silent(fb2):
+            ctx.fail({'symptom': 'verdict depends on argument order', 'assertion': name, 'options': sorted(opt)}, case=case)
+        return
+    want = ref if name == 'assert_equal' else not ref
+    got = _judge(ctx, name + ''.join('+' + k for k in sorted(opt)), fb, exc, want, case, True, False)
 
 
 def body_unary(ctx):
@@ -449,6 +489,8 @@ def phases(tier):
     vals = CORE if tier == 'quick' else VALUES
     return [
         Phase('binary', make_binary(vals), setup=_setup, chunk=400, describe='binary assertion x left x right x wrapping'),
+        Phase('equality-options', body_options, setup=_setup, chunk=400,
+              describe='assert_equal/assert_not_equal x exact_strings/delta options x nested values x wrapping'),
         Phase('unary', body_unary, setup=_setup, chunk=200, describe='truthiness / None-ness x value x wrapping'),
         Phase('instance-type', body_instance, setup=_setup, chunk=200, describe='instance/type assertions x value x type'),
         Phase('regex', body_regex, setup=_setup, chunk=100, describe='regex assertions x pattern x text'),
